@@ -11,18 +11,18 @@
 (*                   depth NFiles + 1 (no infinite expansion)              *)
 (*    AcyclicFine    an acyclic graph is never an error and never exceeds  *)
 (*                   the longest chain expansion                           *)
-(*    SoundVsExpand  a delivered marker sequence is the one Expand gives   *)
 (*    MatchesExpand  at the end: error iff Expand says error, else the     *)
-(*                   same marker sequence (SoundVsExpand + no spurious     *)
-(*                   "recursive file inclusion")                           *)
+(*                   same marker sequence                                  *)
 (*                                                                         *)
 (* Variant selects the order of the checks in the code:                    *)
-(*   "current"  the tree as it is now: the root file is not put on the     *)
+(*   "current"  the tree as it is: the root file is not put on the         *)
 (*              inclusion stack; an #include first looks at the stack      *)
-(*              (=> "recursive file inclusion") and only the included file *)
-(*              looks at the #once set                                     *)
-(*   "guarded"  the root is on the stack and the #once set is consulted    *)
-(*              first                                                      *)
+(*              (=> "recursive file inclusion", #once or not) and the      *)
+(*              included file looks at the #once set on entry.  Expand is  *)
+(*              defined with the same order, so MatchesExpand holds.       *)
+(*   "guarded"  (not registered) the root is on the stack and the #once    *)
+(*              set is consulted first: a #once file re-included while it  *)
+(*              is open is skipped; differs from Expand on such graphs.    *)
 (* The graph is built file by file through Next steps (so that the         *)
 (* enumeration is spread over the workers), then the machine runs.         *)
 (***************************************************************************)
@@ -88,12 +88,6 @@ MatchesExpand ==
         LET e == Expand(g, 1) IN
         /\ (ms.status = "error") = ~e.ok
         /\ ms.status = "done" => ms.out = e.out
-
-\* the weaker half: whatever the machine delivers is the declared expansion
-\* (it may only err on the side of reporting an error)
-SoundVsExpand ==
-    (Running /\ ms.status = "done") =>
-        LET e == Expand(g, 1) IN e.ok /\ ms.out = e.out
 
 \* the step-by-step machine and its fold agree (the trace spec uses neither;
 \* this keeps MRun honest for users of the module)
